@@ -24,7 +24,7 @@ from .. import algs, fpx
 from ..runner import Infra
 from ..translate import ir
 
-THEOREMS = ["generated_wf", "square_is_mul", "absolute_is_abs", "limits_square_absolute"]
+THEOREMS = ["generated_wf", "square_is_mul", "absolute_is_abs", "limits_square_absolute", "square_correctly_rounded", "absolute_exact"]
 SEARCHED = ["4 ULP (float32) / 5 ULP (float64) bound", "fewer than 1 in 1e5 inputs above 3 ULP", "NaN exactly where undefined", "exact limits at infinities and zero"]
 TRUSTED = [
     "Lean 4 kernel; axioms propext, Classical.choice, Quot.sound only",
@@ -32,7 +32,8 @@ TRUSTED = [
     "mpmath Ziv reference; in the float32 exhaustive sweep: float64 libm rounded once, re-checked with mpmath when within 2^-20 of a rounding boundary or >= 3 ULP off",
 ]
 LEVEL_TEXT = ("Partial proof. Theorems on the regenerated programs: well-formedness; real `square` is the single IEEE multiplication x*x and real `absolute` the sign-bit clear, "
-              "so their results are correctly rounded / exact for every input (0 ULP) and their limits at 0 and infinity are exact (kernel-evaluated on the bit-exact model). "
+              "so their results are correctly rounded / exact for every input (0 ULP): square_correctly_rounded (value = RNE(x^2) for every finite x whose square does not overflow, "
+              "from the proved correct rounding of the softfloat multiplication) and absolute_exact (value = |x|); their limits at 0 and infinity are exact (kernel-evaluated). "
               "The 4/5-ULP bounds, the 1e-5 rate, the NaN domain and the limits of asin/acos/asinh/acosh/hypot are decided by search: float32 exhaustively in the thorough "
               "tier (all non-NaN patterns), strided + boundary-targeted in quick; float64 and hypot sampled against an mpmath Ziv reference.")
 LEVEL_NOTE = "ULP bounds of the libm-based functions: search only (exhaustive for float32 in thorough)."
